@@ -163,7 +163,7 @@ func cmpStringNumeric(t iterator, op string, m, n interface{}) bool {
 	a := m.(string)
 	b := n.(float64)
 	num := stringToNumber(a)
-	return cmpNumberNumberF(op, b, num)
+	return cmpNumberNumberF(op, num, b)
 }
 
 func cmpStringString(t iterator, op string, m, n interface{}) bool {
